@@ -707,7 +707,10 @@ class Sym:
         caps = []
         for u in n.get("upvars", []):
             u = F.strip(u)
-            if u.get("k") in ("Var", "Upvar"):
+            # a closure that uses only `x.f` captures the place `x.f` (disjoint capture): what it sees is still the variable `x`
+            while u.get("k") in ("Field", "Deref") and isinstance(u.get("e"), dict):
+                u = F.strip(u["e"])
+            if u.get("k") in ("Var", "Upvar") and u["id"] not in [c_[0] for c_ in caps]:
                 caps.append((u["id"], self.read_var(u, st)))
         return [(st, (VAL, ("closure", n["def"], tuple(caps))))]
 
